@@ -567,7 +567,9 @@ Definition exec (e : env) (i : instr) (f : frame) (w : world) (rest : list frame
 
 Definition table (e : env) : list (option opinfo) := if e_v2 e then table_v2 else table_v1.
 Definition op_info (e : env) (op : Z) : option opinfo :=
-  match nth_error (table e) (Z.to_nat op) with Some (Some i) => Some i | _ => None end.
+  if (0 <=? op) && (op <? 256) then
+    match nth_error (table e) (Z.to_nat op) with Some (Some i) => Some i | _ => None end
+  else None.
 Definition cur_op (f : frame) : Z :=
   if f_pc f <? Z.of_nat (length (f_code f)) then nth (Z.to_nat (f_pc f)) (f_code f) 0 else 0.
 
